@@ -91,8 +91,8 @@ EDGES_A = np.array([0.2, 1.0, 2.0, 3.5, 4.5, 6.0])  # unequal widths, positive (
 EDGES_B = np.array([0.45, 1.95, 3.45, 4.95, 6.45])  # equal widths
 
 UNC = {
-    "xy": ["none", "y", "xy", "poisson", "ga+y"],
-    "indexed": ["none", "y", "poisson", "ga+y"],
+    "xy": ["none", "y", "xy", "y+relm", "poisson", "ga+y"],
+    "indexed": ["none", "y", "y+relm", "poisson", "ga+y"],
     "hist": ["none", "y", "poisson", "ga+y"],
     "unbinned": ["none"],
 }
@@ -127,8 +127,9 @@ class World(object):
         n = 6
         val = V(v, n)
         self.poisson = unc in ("poisson", "ga+y", "poisson+y")
-        with_y = unc in ("y", "xy", "ga+y", "poisson+y", "y+fixed")
-        cost = {"none": "chi2", "y": "chi2", "xy": "chi2", "y+fixed": "chi2", "poisson": "nll", "poisson+y": "nll", "ga+y": "gauss_approximation"}[unc]
+        with_y = unc in ("y", "xy", "ga+y", "poisson+y", "y+fixed", "y+relm")
+        self.rm = 0.0  # size of a y uncertainty relative to the MODEL (its bar follows the fitted model values)
+        cost = {"none": "chi2", "y": "chi2", "xy": "chi2", "y+fixed": "chi2", "y+relm": "chi2", "poisson": "nll", "poisson+y": "nll", "ga+y": "gauss_approximation"}[unc]
         if ftype == "unbinned":
             cost = "nll"
         self.cost = cost
@@ -163,6 +164,9 @@ class World(object):
                     f.add_error("y", val.ry, relative=True)
                     self.xerr = np.sqrt(ex**2 + (val.rx * self.x) ** 2)
                     self.yerr = np.sqrt(ey**2 + (val.ry * self.y) ** 2)
+                if unc == "y+relm":
+                    f.add_error("y", val.rm, relative=True, reference="model")
+                    self.rm = float(val.rm)
                 if unc == "y+fixed":
                     name = "b" if role == "A" else "k"
                     value = 0.55 if role == "A" else -0.21
@@ -182,6 +186,9 @@ class World(object):
                     if unc == "y":
                         f.add_error(ey_b, correlation=rho)
                         self.yerr = np.sqrt(ey**2 + ey_b**2)
+                    if unc == "y+relm":
+                        f.add_error(val.rm, relative=True, reference="model")
+                        self.rm = float(val.rm)
             elif ftype == "hist":
                 self.edges = EDGES_A if role == "A" else EDGES_B
                 self.entries = entries_for(role, v)
@@ -235,6 +242,8 @@ class World(object):
         if self.yerr is None:
             return None
         tot = self.yerr**2
+        if self.rm:
+            tot = tot + (self.rm * np.asarray(self.model_at_data(), dtype=float)) ** 2
         if self.poisson:
             tot = tot + self.y
         return np.sqrt(tot)
